@@ -438,9 +438,9 @@ func GenKnobs(rt *rapid.T) OptimizeKnobs {
 }
 
 type OptimizeResult struct {
-	Patch    []byte
-	Err      error
-	Panic    string
+	Patch     []byte
+	Err       error
+	Panic     string
 	Mappings  int
 	LateBytes int
 	// Again runs Optimize once more on the same rediff context with the same pools (nil if the
